@@ -67,6 +67,7 @@ struct FileFacts {
     macro_defs: Vec<(String, Vec<String>)>,
     inner_attrs: Vec<String>,
     lints: Vec<String>,
+    stdpaths: BTreeSet<String>,
 }
 
 struct Scan<'a> {
@@ -82,6 +83,40 @@ fn collect_cfg_keys(ts: TokenStream, out: &mut BTreeSet<String>) {
             TokenTree::Group(g) => collect_cfg_keys(g.stream(), out),
             _ => {}
         }
+    }
+}
+/// paths rooted in std / core / alloc inside a token stream (macro bodies and arguments): `std :: a :: b`
+fn collect_stdpaths_tokens(ts: TokenStream, out: &mut BTreeSet<String>) {
+    let toks: Vec<TokenTree> = ts.into_iter().collect();
+    let mut i = 0;
+    while i < toks.len() {
+        if let TokenTree::Group(g) = &toks[i] {
+            collect_stdpaths_tokens(g.stream(), out);
+        }
+        if let TokenTree::Ident(id) = &toks[i] {
+            let root = id.to_string();
+            if root == "std" || root == "core" || root == "alloc" {
+                let mut path = vec![root];
+                let mut j = i + 1;
+                loop {
+                    let colon = |k: usize| matches!(toks.get(k), Some(TokenTree::Punct(p)) if p.as_char() == ':');
+                    if colon(j) && colon(j + 1) {
+                        if let Some(TokenTree::Ident(n)) = toks.get(j + 2) {
+                            path.push(n.to_string());
+                            j += 3;
+                            continue;
+                        }
+                    }
+                    break;
+                }
+                if path.len() > 1 {
+                    out.insert(path.join("::"));
+                }
+                i = j;
+                continue;
+            }
+        }
+        i += 1;
     }
 }
 fn collect_idents_tokens(ts: TokenStream, out: &mut BTreeSet<String>) {
@@ -227,6 +262,8 @@ impl<'a, 'ast> Visit<'ast> for Scan<'a> {
             }
         }
         walk(&i.tree, &[], &mut self.f.uses, &mut self.f.idents);
+        let std_uses: Vec<String> = self.f.uses.iter().filter(|u| u.starts_with("std::") || u.starts_with("core::") || u.starts_with("alloc::")).cloned().collect();
+        self.f.stdpaths.extend(std_uses);
     }
     fn visit_item_extern_crate(&mut self, i: &'ast syn::ItemExternCrate) {
         self.f.idents.insert(format!("extern_crate_{}", i.ident));
@@ -234,6 +271,10 @@ impl<'a, 'ast> Visit<'ast> for Scan<'a> {
     fn visit_path(&mut self, p: &'ast syn::Path) {
         for s in &p.segments {
             self.f.idents.insert(s.ident.to_string());
+        }
+        if p.segments.len() >= 2 && (p.segments[0].ident == "std" || p.segments[0].ident == "core" || p.segments[0].ident == "alloc") {
+            let v: Vec<String> = p.segments.iter().map(|s| s.ident.to_string()).collect();
+            self.f.stdpaths.insert(v.join("::"));
         }
         if p.segments.len() >= 2 && p.segments[0].ident == "crate" {
             let v: Vec<String> = p.segments.iter().map(|s| s.ident.to_string()).collect();
@@ -257,6 +298,13 @@ impl<'a, 'ast> Visit<'ast> for Scan<'a> {
         }
         // identifiers inside macro arguments are code too (debug_assert!, write!, ...)
         collect_idents_tokens(m.tokens.clone(), &mut self.f.idents);
+        collect_stdpaths_tokens(m.tokens.clone(), &mut self.f.stdpaths);
+        {
+            let v: Vec<String> = m.path.segments.iter().map(|s| s.ident.to_string()).collect();
+            if v.len() > 1 && (v[0] == "std" || v[0] == "core" || v[0] == "alloc") {
+                self.f.stdpaths.insert(v.join("::"));
+            }
+        }
         if norm_tokens(&m.tokens).split(' ').any(|t| t == "unsafe") {
             self.f.unsafe_items.push((format!("unsafe_in_macro_call:{}", name), m.bang_token.span.start().line));
         }
@@ -272,6 +320,7 @@ impl<'a, 'ast> Visit<'ast> for Scan<'a> {
             let mut ids = BTreeSet::new();
             collect_idents_tokens(i.mac.tokens.clone(), &mut ids);
             self.f.idents.extend(ids);
+            collect_stdpaths_tokens(i.mac.tokens.clone(), &mut self.f.stdpaths);
             self.f.macro_defs.push((name, body));
         } else {
             self.visit_macro(&i.mac);
@@ -759,6 +808,7 @@ fn main() {
         let _ = writeln!(facts_v, "  ff_casts := {};", coq_list(&ff.casts.iter().map(|(e, t)| format!("({}, {})", coq_str(e), coq_str(t))).collect::<Vec<_>>()));
         let _ = writeln!(facts_v, "  ff_statics := {};", coq_list(&ff.statics.iter().map(|s| coq_str(s)).collect::<Vec<_>>()));
         let _ = writeln!(facts_v, "  ff_cfg_keys := {};", coq_list(&ff.cfg_keys.iter().map(|s| coq_str(s)).collect::<Vec<_>>()));
+        let _ = writeln!(facts_v, "  ff_stdpaths := {};", coq_list(&ff.stdpaths.iter().map(|s| coq_str(s)).collect::<Vec<_>>()));
         let _ = writeln!(facts_v, "  ff_macro_defs := {} |}}.\n", coq_list(&ff.macro_defs.iter().map(|(n, b)| format!("({}, {})", coq_str(n), coq_list(&b.iter().map(|s| coq_str(s)).collect::<Vec<_>>()))).collect::<Vec<_>>()));
     }
     let _ = writeln!(facts_v, "Definition all_files : list file_facts := {}.\n", coq_list(&file_names));
